@@ -41,6 +41,8 @@ def _run_one(job):
 
 
 WATCHDOG_S = {'quick': 900, 'thorough': 7200}
+# properties whose bounded store grows to 4 nodes in the thorough tier (measured to finish within the watchdog)
+THOROUGH_GRAPH_K = {}
 
 
 def _child(job, conn):
@@ -333,4 +335,8 @@ def main(argv=None):
     sys.path.insert(0, ROOT)
     if a.replay:
         return replay_file(a.replay)
+    # contracts may deepen their generators in the thorough tier (larger stores, combinations of properties, more samples)
+    os.environ['VERIF_TIER_ACTIVE'] = a.tier
+    if a.tier == 'thorough' and a.prop in THOROUGH_GRAPH_K:
+        os.environ.setdefault('VERIF_GRAPH_K', str(THOROUGH_GRAPH_K[a.prop]))
     return run_property(a.prop, a.tier, a.seed, a.jobs, a.update_inventory, a.only)
